@@ -302,6 +302,37 @@ Theorem service_key_refs_mixed_refuted :
 Proof. vm_compute. reflexivity. Qed.
 Print Assumptions service_key_refs_mixed_refuted.
 
+(* ---- JWKs (publicKeyJwk, jwk.JWK) ----
+   what the jwk package writes for a JWK it has read: exactly the members it knows for the key type (generated list
+   for X25519 / secp256k1 / BLS12-381 G2 keys, go-jose's for the others) with their values; in particular kty, crv,
+   the key material, use, alg and kid of every key type come back; key_ops and unknown members do not (known finding) *)
+Theorem jwk_members_roundtrip : forall jw k,
+  lookup (jwk_out jw) k =
+  if mem k (if jwk_custom_type jw then jwk_custom_members else jose_members) then option_map f64j (lookup jw k) else None.
+Proof. exact jwk_out_lookup. Qed.
+Print Assumptions jwk_members_roundtrip.
+
+Theorem jwk_reparse_stable : forall jw, jwk_out (jwk_out jw) = jwk_out jw.
+Proof. exact jwk_out_idem. Qed.
+Print Assumptions jwk_reparse_stable.
+
+(* every member of the key itself and use / alg / kid are among the kept ones for both kinds of key type *)
+Theorem jwk_kept_members :
+  forallb (fun k => mem k jwk_custom_members && mem k jose_members) ["kty"; "crv"; "x"; "y"; "use"; "alg"; "kid"] = true /\
+  mem "key_ops" jose_members = false /\ mem "key_ops" jwk_custom_members = false.
+Proof. vm_compute. repeat split. Qed.
+Print Assumptions jwk_kept_members.
+
+(* a key of a publicKeyMultibase type (generated list) given as publicKeyBase58: repaired code writes the base58-btc
+   multibase text of the same key; the code as found had no text form for it (zero encoding) *)
+Theorem vm_multibase_type_base58_asis_refuted :
+  let m := [("id", JStr "did:a#k"); ("type", JStr "Ed25519VerificationKey2020"); ("controller", JStr "did:a"); ("publicKeyBase58", JStr "abc")] in
+  option_map m_key (dec_vm Fixed "did:a" "" m) = Some ("publicKeyMultibase", JStr "zabc") /\
+  dec_vm AsIs "did:a" "" m = None /\
+  forallb (fun t => mem t vm_types) vm_multibase_types = true.
+Proof. vm_compute. repeat split. Qed.
+Print Assumptions vm_multibase_type_base58_asis_refuted.
+
 (* ---- key fingerprints (multibase/base58 layer outside: sampled on btcutil) ----
    for every code of the generated multicodec table except G1G2 and every key byte string:
    PubKeyFromFingerprint (KeyFingerprint code key) = (key, code) *)
